@@ -53,8 +53,27 @@ func runC14(c *Ctx) {
 		c.Fail("LOCKSET", "anchor", token.NoPos, "storage packages not found")
 		return
 	}
-	ruleLockset(c, "LOCKSET", pkMem, "bucket", "lock")
-	ruleOneCriticalSection(c, "LOCKSET", pkMem, "bucket", "lock")
+	// the members of the memory bucket are found by type: its mutex, and its path -> object map
+	memLock, memMap := "lock", "pathToImmutableObject"
+	if o := pkMem.Types.Scope().Lookup("bucket"); o != nil {
+		if st, ok := o.Type().Underlying().(*types.Struct); ok {
+			for i := 0; i < st.NumFields(); i++ {
+				f := st.Field(i)
+				switch ft := f.Type().Underlying().(type) {
+				case *types.Map:
+					if b, ok := ft.Key().Underlying().(*types.Basic); ok && b.Kind() == types.String {
+						memMap = f.Name()
+					}
+				default:
+					if np := namedPath(f.Type()); np == "sync.RWMutex" || np == "sync.Mutex" {
+						memLock = f.Name()
+					}
+				}
+			}
+		}
+	}
+	ruleLockset(c, "LOCKSET", pkMem, "bucket", memLock)
+	ruleOneCriticalSection(c, "LOCKSET", pkMem, "bucket", memLock)
 	// writers of the map across the package: Close of writeObjectCloser, Delete, DeleteAll
 	writers := map[string]bool{}
 	for _, f := range pkMem.Syntax {
@@ -75,7 +94,7 @@ func runC14(c *Ctx) {
 			if target == nil {
 				return true
 			}
-			if se, ok := target.(*ast.SelectorExpr); ok && se.Sel.Name == "pathToImmutableObject" {
+			if se, ok := target.(*ast.SelectorExpr); ok && se.Sel.Name == memMap {
 				if fd := p.EnclosingFuncDecl(n); fd != nil {
 					writers[declName(fd)] = true
 				}
@@ -99,12 +118,12 @@ func runC14(c *Ctx) {
 		ast.Inspect(cl.Decl.Body, func(n ast.Node) bool {
 			switch x := n.(type) {
 			case *ast.CallExpr:
-				if sel, ok := x.Fun.(*ast.SelectorExpr); ok && sel.Sel.Name == "Lock" && strings.HasSuffix(exprString(sel.X), "bucket.lock") {
+				if sel, ok := x.Fun.(*ast.SelectorExpr); ok && sel.Sel.Name == "Lock" && strings.HasSuffix(exprString(sel.X), "bucket."+memLock) {
 					lock = x
 				}
 			case *ast.AssignStmt:
 				if len(x.Lhs) == 1 {
-					if ix, ok := x.Lhs[0].(*ast.IndexExpr); ok && strings.HasSuffix(exprString(ix.X), "pathToImmutableObject") {
+					if ix, ok := x.Lhs[0].(*ast.IndexExpr); ok && strings.HasSuffix(exprString(ix.X), memMap) {
 						store = x
 					}
 				}
@@ -447,6 +466,15 @@ func runC14(c *Ctx) {
 					if inc, ok := fs.Post.(*ast.IncDecStmt); ok && inc.Tok == token.DEC {
 						desc = true
 						where = fr.Decl.Pos()
+					}
+				}
+				// `for _, m := range slices.Backward(list)` is the same walk
+				if rs, ok := n.(*ast.RangeStmt); ok {
+					if call, ok := ast.Unparen(rs.X).(*ast.CallExpr); ok {
+						if fn := Callee(fr.Info(), call); fn != nil && calleeIs(fn, "slices", "Backward") {
+							desc = true
+							where = fr.Decl.Pos()
+						}
 					}
 				}
 				return true
